@@ -16,6 +16,28 @@ theorem C08_unresolved_ranges_reviewed : mapRangeUnresolved = reviewedNonMap := 
 
 theorem C08_no_ambient_nondeterminism : ambientUses = [] := by rfl
 
+/-- every slice built inside a map range is reviewed, with its fate -/
+theorem C08_order_carrying_results_reviewed : orderCarryingResults = orderReview.map (·.1) := by rfl
+
+/-- the callers that receive a map-ordered slice: the oracle EndBlocker, CreatePrice and the recache
+(which discards SealRound's results) -/
+theorem C08_order_carrying_consumers : orderCarryingConsumers = [
+    "GetValidators <- x/oracle/keeper/msg_server_create_price.go:msgServer.CreatePrice",
+    "GetValidators <- x/oracle/module.go:AppModule.EndBlock",
+    "SealRound <- x/oracle/keeper/single.go:recacheAggregatorContext",
+    "SealRound <- x/oracle/module.go:AppModule.EndBlock"] := by rfl
+
+/-- every in-place slice removal in consensus code is the order-preserving splice; in particular the
+removal from the oracle nonce list, whose argument order is map-derived (`sealed`) -/
+theorem C08_slice_removals_are_splices : sliceRemovalShapes = [
+    "x/appchain/coordinator/keeper/timeout.go:Keeper.RemoveChainFromInitTimeout:prev.List:splice",
+    "x/delegation/keeper/delegation_state.go:Keeper.DeleteStakerForOperator:stakers.Stakers:splice",
+    "x/oracle/keeper/native_token.go:Keeper.UpdateNSTValidatorListForStaker:stakerInfo.ValidatorPubkeyList:splice",
+    "x/oracle/keeper/native_token.go:Keeper.UpdateNSTValidatorListForStaker:stakerList.StakerAddrs:splice",
+    "x/oracle/keeper/nonce.go:Keeper.RemoveNonceWithValidatorAndFeederID:nonce.NonceList:splice",
+    "x/oracle/keeper/nonce.go:Keeper.removeNonceWithValidatorAndFeederID:nonce.NonceList:splice",
+    "x/reward/keeper/reward_record.go:rewardRecord.ClearRewards:p.Rewards:splice"] := by rfl
+
 /-- every variable that a map-range body carries from one iteration to the next is a reviewed one -/
 theorem C08_loop_carried_state_reviewed : mapRangeCarriedState = carriedReview.map (·.1) := by rfl
 
